@@ -43,7 +43,7 @@ def rebuild_case(draw, tier, prepopulate=False, partial_decoys=False):
                 # 'all': every byte differs (C14's decoy); the partial kinds agree with the real file in some pieces
                 e["decoy_kind"] = draw(st.sampled_from(["all", "all", "all", "same-first-piece", "same-tail", "one-byte"])) if partial_decoys else "all"
             if prepopulate:
-                e["pre"] = draw(st.sampled_from(["none", "none", "correct", "wrong-full", "shorter", "shorter-wrong"]))
+                e["pre"] = draw(st.sampled_from(["none", "none", "correct", "wrong-full", "shorter", "shorter-wrong", "sparse-full"]))
                 if e["decoy"] is not None:
                     # the intact copy may be missing altogether: only the decoy carries the name (C14 must hold then, too)
                     e["real_absent"] = draw(st.sampled_from([True] + [False] * 3))
@@ -110,7 +110,7 @@ def _blocked(d, base):
 def build(scr, case):
     """Create metafiles (from pristine payload copies that are then deleted), scatter files; returns layout dict."""
     orig = os.path.join(scr, "orig")
-    mdir = os.path.join(scr, "metafiles")
+    mdir = os.path.join(scr, "metafiles [to re-seed] *")      # a folder name that is also a shell pattern
     os.makedirs(orig)
     os.makedirs(mdir)
     search = [os.path.join(scr, "search%d" % i) for i in range(case["nsearch"])]
